@@ -1,6 +1,7 @@
 import PbVerif.Lemmas.Loess
 import PbVerif.Lemmas.LoessKern
 import PbVerif.Lemmas.LoessRepro
+import PbVerif.Lemmas.LoessAffine
 /-! C19 — LOESS: which points are fitted, with which windows, and how skipped points are filled; the two memory
 strategies (`conserve_memory`) compute the same baseline and coefficients; data on a polynomial of degree
 ≤ poly_order is reproduced at every fitted point. -/
@@ -49,6 +50,72 @@ example : determineFitsX [0, 1, 2, 3, 4, 5, 6] 3 (21/10) =
     ([(0, 3), (1, 4), (3, 6), (3, 6), (4, 7)], [0, 2, 4, 5, 6], [(0, 3), (2, 5), (4, 6)]) := by decide +kernel
 /-- the repaired corner: `total_points = N` with a skipped tail keeps the window inside the data -/
 example : determineFitsX [0, 1, 2] 3 (21/10) = ([(0, 3), (0, 3), (0, 3)], [0, 1, 2], [(0, 2)]) := by decide +kernel
+
+/-! ### invariance under the magnitude of the x-axis
+
+`x ↦ a·x + b` with `a > 0`, and `delta ↦ a·delta` (`delta` is a length on the x-axis; the public default is
+`0.01·(max x - min x)`, which scales by itself).  Every test of `_determine_fits` compares differences of
+x-values with each other or with `delta`; an absolute slack in any of them (`+ _MIN_FLOAT`, `isclose`) contradicts
+the statements below on an axis of small or large magnitude. -/
+
+/-- **which points are fitted, with which windows, and which ranges are skipped does not depend on the offset
+or scale of x.**  Guards of the real code: at least one point, `total_points ≥ 1` (the second-to-last test reads
+`x[num_x - total_points]`; with `total_points = 0` that index is out of range and the statement is false for the
+totalised model). -/
+theorem determineFits_affine_invariant (a b : Rat) (ha : 0 < a) (x : List Rat) (tp : Nat) (delta : Rat)
+    (hn : 1 ≤ x.length) (htp : 1 ≤ tp) :
+    determineFitsX (x.map (fun t => a * t + b)) tp (a * delta) = determineFitsX x tp delta :=
+  LoessAffine.determineFitsX_aff a b ha x tp delta hn htp
+
+/-- the selection depends on the data only through the answers to the comparisons it can ask (`skip` with
+`lastFit < i`, `adv` with `left ≤ right < N`, `tail`), for arbitrary oracles -/
+theorem determineFits_congr (o o' : Oracle) (n tp : Nat) (check : Bool) (h : LoessAffine.Agree n o o') :
+    determineFits o n tp check = determineFits o' n tp check := LoessAffine.determineFits_congr o o' n tp check h
+
+/-- `_fill_skips` / `_interp_inplace`: the chord interpolation is invariant too (any `a ≠ 0`).  Guards: every skip
+range lies inside the data (`C05.determineFits_skips_inb`), the two ends of each chord have distinct abscissae (the
+real code divides by their difference). -/
+theorem fillSkips_affine_invariant (a b : Rat) (ha : a ≠ 0) (x y : List Rat) (skips : List (Nat × Nat))
+    (hlen : x.length = y.length) (hs : ∀ p ∈ skips, p.1 < p.2 ∧ p.2 ≤ x.length)
+    (hdist : ∀ p ∈ skips, x.getD (p.2 - 1) 0 ≠ x.getD p.1 0) :
+    fillSkips (x.map (fun t => a * t + b)) y skips = fillSkips x y skips :=
+  have _ := hdist; LoessAffine.fillSkips_aff a b ha x y skips hlen hs
+
+/-- non-vacuity: 7 unevenly spaced points, `a = 10⁻³⁰, b = 0` and `a = 1, b = 1.7·10⁹`; the selection is the
+non-trivial one (skips present), and moving x WITHOUT scaling delta does change it -/
+example :
+    determineFitsX ([0, 1, 2, 7/2, 4, 5, 6].map (fun t => (1 / 1000000000000000000000000000000 : Rat) * t + 0)) 3
+        ((1 / 1000000000000000000000000000000 : Rat) * (21/10)) = determineFitsX [0, 1, 2, 7/2, 4, 5, 6] 3 (21/10) ∧
+    determineFitsX ([0, 1, 2, 7/2, 4, 5, 6].map (fun t => 1 * t + 1700000000)) 3 (1 * (21/10)) =
+      determineFitsX [0, 1, 2, 7/2, 4, 5, 6] 3 (21/10) ∧
+    determineFitsX [0, 1, 2, 7/2, 4, 5, 6] 3 (21/10) =
+      ([(0, 3), (1, 4), (3, 6), (3, 6), (4, 7)], [0, 2, 4, 5, 6], [(0, 3), (2, 5), (4, 6)]) ∧
+    determineFitsX ([0, 1, 2, 7/2, 4, 5, 6].map (fun t => (1 / 1000 : Rat) * t + 0)) 3 (21/10) ≠
+      determineFitsX [0, 1, 2, 7/2, 4, 5, 6] 3 (21/10) := by
+  refine ⟨by decide +kernel, by decide +kernel, by decide +kernel, by decide +kernel⟩
+example :
+    fillSkips ([0, 1, 2, 7/2, 4, 5, 6].map (fun t => (1 / 1000000000000000000000000000000 : Rat) * t + 5)) [3, 0, 1, 4, 0, 2, 2] [(0, 3), (3, 6)] =
+      fillSkips [0, 1, 2, 7/2, 4, 5, 6] [3, 0, 1, 4, 0, 2, 2] [(0, 3), (3, 6)] ∧
+    fillSkips [0, 1, 2, 7/2, 4, 5, 6] [3, 0, 1, 4, 0, 2, 2] [(0, 3), (3, 6)] = [3, 2, 1, 4, 10/3, 2, 2] := by
+  refine ⟨by decide +kernel, by decide +kernel⟩
+
+/-- the distance kernel of a local fit (`difference / max(difference[0], difference[-1])`, tricube, `sqrt`) is the
+same on `a·x + b`, for ANY `sqrt`: it depends on ratios of differences only.  Guards: the fit index is a data
+index, and the kernel is computed without dividing by zero (`kernel_den_pos` below gives this for the windows of
+`_determine_fits` on sorted distinct x; the proof does not use it, `a·d / (a·0) = d / 0` in the totalised model). -/
+theorem kernel_affine_invariant (sqrt : Rat → Rat) (a b : Rat) (ha : 0 < a) (x : List Rat) (i left right : Nat)
+    (hi : i < x.length) (hden : kernelDen (ratNum sqrt) x i left right ≠ 0) :
+    kernelOf (ratNum sqrt) (x.map (fun t => a * t + b)) i left right = kernelOf (ratNum sqrt) x i left right :=
+  have _ := hden; LoessAffine.kernelOf_aff sqrt a b ha x i left right hi
+example :
+    kernelOf (ratNum (sqrtApprox 16)) ([-1, -1/2, 0, 3/4, 1].map (fun t => (1 / 1000000000000000000000000000000 : Rat) * t + 0)) 2 0 4 =
+      kernelOf (ratNum (sqrtApprox 16)) [-1, -1/2, 0, 3/4, 1] 2 0 4 ∧
+    kernelOf (ratNum (sqrtApprox 16)) ([-1, -1/2, 0, 3/4, 1].map (fun t => 1 * t + 1700000000)) 2 0 4 =
+      kernelOf (ratNum (sqrtApprox 16)) [-1, -1/2, 0, 3/4, 1] 2 0 4 ∧
+    kernelDen (ratNum (sqrtApprox 16)) [-1, -1/2, 0, 3/4, 1] 2 0 4 = 1 ∧
+    (kernelOf (ratNum (sqrtApprox 16)) [-1, -1/2, 0, 3/4, 1] 2 0 4).getD 2 0 = 1 ∧
+    (kernelOf (ratNum (sqrtApprox 16)) [-1, -1/2, 0, 3/4, 1] 2 0 4).getD 0 1 = 0 := by
+  refine ⟨by decide +kernel, by decide +kernel, by decide +kernel, by decide +kernel, by decide +kernel⟩
 
 /-! ### the memory strategies
 
